@@ -132,8 +132,19 @@ func VerifScreenDump(s Screen) string {
 	if !ok {
 		return ""
 	}
-	var sb strings.Builder
 	t.Lock()
+	defer t.Unlock()
+	return VerifScreenDumpNoLock(s)
+}
+
+// VerifScreenDumpNoLock is VerifScreenDump without taking the screen lock: for the
+// scheduler's state keys, evaluated while every goroutine is parked.
+func VerifScreenDumpNoLock(s Screen) string {
+	t, ok := s.(*baseScreen).screenImpl.(*tScreen)
+	if !ok {
+		return ""
+	}
+	var sb strings.Builder
 	sb.WriteString(VerifCellDump(&t.cells))
 	fmt.Fprintf(&sb, "|%d,%d,%d,%d,%v,%d,%d,%d,%v,%v,%v,%v,%v,%v|", t.w, t.h, t.cx, t.cy, t.clear, t.cursorx, t.cursory, t.cursorStyle, t.cursorColor, t.style, t.curstyle, t.fini, t.running, t.truecolor)
 	keys := make([]string, 0, len(t.colors))
@@ -156,7 +167,7 @@ func VerifScreenDump(s Screen) string {
 	}
 	sortStrings(fb)
 	sb.WriteString(strings.Join(fb, ","))
-	t.Unlock()
+	fmt.Fprintf(&sb, "|%v,%v,%d,%v", t.escaped, t.buttondn, t.buf.Len(), t.buffering)
 	return sb.String()
 }
 
@@ -166,4 +177,47 @@ func sortStrings(a []string) {
 			a[j], a[j-1] = a[j-1], a[j]
 		}
 	}
+}
+
+// VerifScreenStateHash is a cheap lock-free digest of the screen's private state for the
+// scheduler's state keys (evaluated while every goroutine is parked): every scalar field,
+// the cell buffer contents and the sizes of the maps.
+func VerifScreenStateHash(s Screen) uint64 {
+	t, ok := s.(*baseScreen).screenImpl.(*tScreen)
+	if !ok {
+		return 0
+	}
+	h := uint64(14695981039346656037)
+	add := func(v uint64) {
+		h ^= v
+		h *= 1099511628211
+	}
+	b := func(x bool) uint64 {
+		if x {
+			return 1
+		}
+		return 0
+	}
+	add(uint64(t.w))
+	add(uint64(t.h))
+	add(uint64(t.cx + 2))
+	add(uint64(t.cy + 2))
+	add(uint64(t.cursorx + 2))
+	add(uint64(t.cursory + 2))
+	add(uint64(t.cursorStyle))
+	add(uint64(t.cursorColor))
+	add(uint64(t.mouseFlags))
+	add(b(t.fini)<<0 | b(t.running)<<1 | b(t.clear)<<2 | b(t.pasteEnabled)<<3 | b(t.focusEnabled)<<4 | b(t.escaped)<<5 | b(t.buttondn)<<6 | b(t.buffering)<<7 | b(t.truecolor)<<8)
+	add(uint64(len(t.colors)))
+	add(uint64(len(t.fallback)))
+	add(uint64(len(t.title)))
+	add(uint64(t.style.fg) ^ uint64(t.style.bg)<<1 ^ uint64(t.style.attrs)<<2)
+	add(uint64(t.cells.w)<<16 | uint64(t.cells.h))
+	for i := range t.cells.cells {
+		c := &t.cells.cells[i]
+		add(uint64(c.currMain)<<32 | uint64(uint32(c.lastMain)))
+		add(uint64(c.currStyle.fg) ^ uint64(c.currStyle.bg)<<7 ^ uint64(c.currStyle.attrs)<<13 ^ uint64(c.width)<<20 ^ b(c.lock)<<24 ^ uint64(len(c.currComb))<<25)
+		add(uint64(c.lastStyle.fg) ^ uint64(c.lastStyle.bg)<<7 ^ uint64(c.lastStyle.attrs)<<13 ^ uint64(len(c.lastComb))<<25)
+	}
+	return h
 }
